@@ -46,7 +46,7 @@ struct Tape {
 	// uniform in [0,n)
 	uint32_t below(uint32_t n)
 	{
-		if (n <= 1) { used.push_back(0); return 0; }
+		if (n <= 1) return 0;   // no choice: consumes nothing and records nothing (keeps replay tapes aligned)
 		uint32_t v = raw(n) % n;
 		used.push_back(v);
 		return v;
